@@ -172,10 +172,12 @@ impl<'s, M: Matcher, S: Sink> MultiLine<'s, M, S> {
                     keepgoing = match self.last_match.take() {
                         None => true,
                         Some(last_match) => {
-                            if self.sink_context(&last_match)? {
-                                self.sink_matched(&last_match)?;
-                            }
-                            true
+                            // An empty final range is never reported (see
+                            // `sink_matched`), but context owed to earlier
+                            // matches is still flushed below.
+                            self.sink_context(&last_match)?
+                                && (last_match.is_empty()
+                                    || self.sink_matched(&last_match)?)
                         }
                     };
                 }
